@@ -133,6 +133,29 @@ def main() -> int:
             continue
         if x["impl"] != x.get("model"):
             disagreements.append({"suite": "T4", "sql": x["rec"]["sql"], "metadata": x["rec"].get("metadata"), "impl": x["impl"][:1200], "model": x.get("model", "")[:1200]})
+    # ---- "in every repetition, in every process": the answer must not depend on what this process analysed before -------
+    # (in particular on runs under another dialect or with other options on the same text)
+    tsql_texts = [x["sql"] for x in corpus.load() if x["dialect"] == "tsql" and not x.get("origin", "").startswith("tpcds")]
+    tsql_texts = r.sample(tsql_texts, min(len(tsql_texts), 25 if quick else 150)) + \
+        ["INSERT INTO tgt SELECT a, total = b + c FROM src", "SELECT a INTO tgt FROM src", "select top 3 a from t", "insert into x select a from t"]
+    probes = [(t, d) for t in tsql_texts for d in ("ansi", "mysql")]
+    first = [t2tie._summary_only({"sql": t, "dialect": d}) for t, d in probes]
+    for t in tsql_texts:
+        t2tie._summary_only({"sql": t, "dialect": "tsql", "config": {"TSQL_NO_SEMICOLON": True}})
+        t2tie._summary_only({"sql": t + "\n" + t, "dialect": "tsql", "config": {"TSQL_NO_SEMICOLON": True}})
+        t2tie._summary_only({"sql": t, "dialect": "tsql"})
+        t2tie._summary_only({"sql": t, "dialect": "sparksql"})
+    dist["repetition_after_other_runs"] = 0
+    for (t, d), a in zip(probes, first):
+        ck.count()
+        dist["repetition_after_other_runs"] += 1
+        b = t2tie._summary_only({"sql": t, "dialect": d})
+        if not a.startswith("ERR"):
+            ck.nontriv(("repeat", d, t))
+        if a != b:
+            spec_failures.append({"suite": "repetition-in-process", "sql": t, "dialect": d, "first_answer": a, "answer_after_other_runs": b,
+                                  "other_runs": "the same text under tsql (with and without TSQL_NO_SEMICOLON) and sparksql",
+                                  "spec": "the same script, dialect, metadata and configuration yield identical results in every repetition"})
     for kid, case in known_hits.items():
         if kid in known:
             ck.known(kid, known[kid]["what"] + " (e.g. %r)" % case["sql"][:120])
